@@ -1037,13 +1037,20 @@ def variants(payload):
     Q = res.problem
     out = []
     for a in Q.actions:
-        ai = ActionInstance(a, tuple(Q.environment.expression_manager.ObjectExp(list(Q.objects(p.type))[0])
-                                     if p.type.is_user_type() and list(Q.objects(p.type)) else None for p in a.parameters)) \
+        # one ground instance of the variant; the i-th parameter takes the (i mod n)-th object of its type, so that a map-back
+        # that permutes or drops arguments is visible (the model's map-back keeps the argument tuple: `backLifted`)
+        ai = ActionInstance(a, tuple(Q.environment.expression_manager.ObjectExp(
+                                         list(Q.objects(p.type))[i % len(list(Q.objects(p.type)))])
+                                     if p.type.is_user_type() and list(Q.objects(p.type)) else None
+                                     for i, p in enumerate(a.parameters))) \
             if all(p.type.is_user_type() and list(Q.objects(p.type)) for p in a.parameters) else None
         origin = "_"
         if ai is not None:
             b = res.map_back_action_instance(ai)
             origin = "_" if b is None else b.action.name
+            if b is not None and comp in ("cer", "dcr", "sir", "btr", "qr") and \
+                    tuple(b.actual_parameters) != tuple(ai.actual_parameters):
+                origin += "!args-changed"
         else:
             origin = "?"
         pre = sorted((upx.enc_expr(c, sort_vars=True) for c in a.preconditions), key=sexp.dumps)
